@@ -42,7 +42,9 @@ RULE = (
     "public mutating entry points called after close; fa_exc: fetch_active_workspace blocks left by an exception or normally, from "
     "every starting state x requested mode; reopen_content: file edited through another handle (or rejected read-only writes) "
     "between close and ws.open(), entity and entity-type fields compared with a third Workspace; mem_dh: BytesIO workspaces with "
-    "concatenated drillholes through close / with-exit / exception / save_as.  non-trivial = a block with >= 2 completed writing operations and an "
+    "concatenated drillholes through close / with-exit / exception / save_as; save_fault: save_as / create / constructor with "
+    "an unwritable target (missing directory, existing file, wrong suffix) from disk and in-memory sources, then open() and a valid "
+    "save_as; after_close also after a session that set the repack flag.  non-trivial = a block with >= 2 completed writing operations and an "
     "exception, or a getter/entry point that reaches _io_call after close"
 )
 LEVEL_TEXT = (
@@ -174,6 +176,14 @@ def generate(rng, tier):
         cases.append({"kind": "reopen_content", "via": "other", "hold": rng.chance(60),
                       "mode1": rng.choice(["r", "r+"]), "edits": rng.sample(edits_all, rng.range(1, 4)),
                       "mode2": rng.choice([None, "r", "r+"])})
+    # the operation that closes may itself fail: save_as / create / constructor with a target that cannot be written
+    for src in ("disk_rp", "disk_r", "memory"):
+        for fault in ("missing_dir", "existing_target", "wrong_suffix"):
+            cases.append({"kind": "save_fault", "src": src, "fault": fault, "via": "save_as", "tok": rng.range(1, 40),
+                          "edits": rng.range(0, 2)})
+    for via in ("create", "ctor"):
+        for fault in ("missing_dir", "wrong_suffix"):
+            cases.append({"kind": "save_fault", "src": "memory", "fault": fault, "via": via, "tok": 1, "edits": 0})
     # in-memory (BytesIO) workspaces holding concatenated drillholes, through every way of closing
     for end in ("close", "with_ok", "with_exc", "save_as"):
         for extra in ([], ["add_data"], ["rename_well", "set_values"], ["remove_data", "points"]):
@@ -192,6 +202,9 @@ def generate(rng, tier):
         ms = sorted({(o, m) for o in mro for m in getters.get(o, [])})
         if ms:
             cases.append({"kind": "after_close", "target": lab, "mode": rng.choice(["r", "r+"]), "members": [list(x) for x in ms]})
+            if lab in ("pts", "curve", "data_float", "grid2d", "drillhole", "cdh", "container", "type_float") or (tier == "thorough"):
+                # the same after a session that deleted something (sets Workspace.repack: close takes its repack branch)
+                cases.append({"kind": "after_close", "target": lab, "mode": "r+", "dirty": True, "members": [list(x) for x in ms]})
     # mutating entry points after close
     ents = [c for c in K.entry_cases(rng, "quick") if c["target"] is not None and "variant" not in c]
     if tier == "quick":
@@ -254,7 +267,136 @@ def drive_one(case, work):
         return drive_reopen_content(case, work)
     if case["kind"] == "mem_dh":
         return drive_mem_dh(case, work)
+    if case["kind"] == "save_fault":
+        return drive_save_fault(case, work)
     return drive_closed_entry(case, work)
+
+
+def drive_save_fault(case, work):
+    """save_as / Workspace.create / Workspace(new path) whose target cannot be written; the workspace object must stay usable"""
+    import gc
+    import os
+    import shutil
+
+    import numpy as np
+    from geoh5py import Workspace
+    from geoh5py.objects import Points
+    from vlib import iodrive, iotrace
+
+    tmp = os.path.join(work, f"tmpsf_{os.getpid()}")
+    shutil.rmtree(tmp, ignore_errors=True)
+    os.makedirs(tmp)
+    out = {"ops": [], "nfiles_before": iotrace.n_open_files()}
+    tok = case["tok"]
+    bad = {"missing_dir": os.path.join(tmp, "no_such_dir", "copy.geoh5"),
+           "existing_target": os.path.join(tmp, "taken.geoh5"),
+           "wrong_suffix": os.path.join(tmp, "copy.h5")}[case["fault"]]
+    if case["fault"] == "existing_target":
+        with open(bad, "wb") as f:
+            f.write(b"someone else's file")
+    ws = None
+    try:
+        if case["via"] in ("create", "ctor"):
+            # no workspace object survives; nothing may leak and the failure must be reported
+            thunk = (lambda: Workspace.create(bad)) if case["via"] == "create" else (lambda: Workspace(bad))
+            d = iodrive.call_traced(thunk)
+            out["fail_exc"] = d["exc"]
+            out["target_exists"] = os.path.exists(bad)
+            gc.collect()
+            out["nfiles_after_fail"] = iotrace.n_open_files()
+            return out
+        if case["src"] == "memory":
+            ws = Workspace()
+        else:
+            path, log = iodrive.fresh_copy(work, "sf")
+            shutil.move(path, os.path.join(tmp, "source.geoh5"))
+            ws = Workspace(os.path.join(tmp, "source.geoh5"), mode="r" if case["src"] == "disk_r" else "r+")
+        out["handle0"], out["ctor_mode"] = iotrace.handle_state(ws), ws._mode  # noqa: SLF001
+        expected = {}
+        if out["handle0"] == "r+":
+            def populate():
+                p = Points.create(ws, vertices=_tok_vertices(tok, 5), name="sf_pts")
+                dd = p.add_data({"sf_vals": {"values": np.arange(5.0) + tok}})
+                expected[str(p.uid)] = {"name": "sf_pts", "vertices": _tok_vertices(tok, 5).tolist()}
+                expected[str(dd.uid)] = {"name": "sf_vals", "values": (np.arange(5.0) + tok).tolist()}
+                for k in range(case["edits"]):
+                    p.name = f"sf_pts{k}"
+                    expected[str(p.uid)]["name"] = p.name
+            rec = iodrive.call_traced(populate, ws)
+            rec["handle_after"] = iotrace.handle_state(ws)
+            out["ops"].append(rec)
+            if rec["exc"] is not None:
+                return {"not_driven": "populate failed: " + str(rec["exc"])}
+        else:
+            import uuid  # noqa: F401
+            from vlib import iofix
+
+            p = iofix.locate(ws, "pts")
+            expected[str(p.uid)] = {"name": "pts", "vertices": np.asarray(p.vertices).tolist()}
+            del p
+        out["ncat"] = iodrive.n_concatenators(ws)
+        out["h5file_before"] = "memory" if case["src"] == "memory" else "disk"
+        # 1. the failing save_as
+        d = iodrive.call_traced(lambda: ws.save_as(bad), ws)
+        out["fail"] = d
+        out["fail_exc"] = d["exc"]
+        out["handle_after_fail"] = iotrace.handle_state(ws)
+        out["nfiles_after_fail"] = iotrace.n_open_files()
+        out["target_written"] = os.path.exists(bad) and case["fault"] != "existing_target"
+        # 2. a plain re-open of the same object must give everything back
+        d = iodrive.call_traced(lambda: ws.open(), ws)
+        out["reopen"] = d
+        out["handle_reopened"] = iotrace.handle_state(ws)
+
+        def view(w):
+            import uuid
+
+            got = {}
+            for u, want in expected.items():
+                e = w.get_entity(uuid.UUID(u))[0]
+                if e is None:
+                    got[u] = None
+                    continue
+                g = {"name": e.name}
+                if "vertices" in want:
+                    g["vertices"] = np.asarray(e.vertices).tolist() if e.vertices is not None else None
+                if "values" in want:
+                    g["values"] = np.asarray(e.values).tolist() if e.values is not None else None
+                got[u] = g
+            return got
+
+        out["expected"] = expected
+        if d["exc"] is None:
+            try:
+                out["view_reopened"] = view(ws)
+            except BaseException as e:  # noqa: BLE001
+                out["view_reopened"] = f"ERROR {type(e).__name__}: {str(e)[:100]}"
+            # 3. and a valid save_as afterwards produces a complete file
+            good = os.path.join(tmp, "good.geoh5")
+            d2 = iodrive.call_traced(lambda: ws.save_as(good), ws)
+            out["good"] = d2
+            out["handle_after_good"] = iotrace.handle_state(ws)
+            if ws._geoh5:  # noqa: SLF001
+                ws.close()
+            if d2["exc"] is None:
+                try:
+                    w2 = Workspace(good, mode="r")
+                    out["view_good"] = view(w2)
+                    w2.close()
+                    del w2
+                except BaseException as e:  # noqa: BLE001
+                    out["view_good"] = f"ERROR {type(e).__name__}: {str(e)[:100]}"
+    finally:
+        if ws is not None and ws._geoh5:  # noqa: SLF001
+            try:
+                ws.close()
+            except BaseException:  # noqa: BLE001
+                ws._geoh5.close()  # noqa: SLF001
+        del ws
+        gc.collect()
+        out["nfiles_end"] = iotrace.n_open_files()
+        shutil.rmtree(tmp, ignore_errors=True)
+    return out
 
 
 def drive_fa_exc(case, work):
@@ -637,6 +779,14 @@ def drive_after_close(case, work):
     try:
         if ent is None:
             return {"not_driven": "fixture target missing"}
+        if case.get("dirty"):
+            # a deletion in this session: Workspace.repack is set and close() goes through its repack branch
+            victim = iofix.locate(ws, "surf")
+            vd = next((c for c in victim.children if getattr(c, "name", None) == "sv"), None) if victim is not None else None
+            if vd is not None:
+                ws.remove_entity(vd)
+            del victim, vd
+            out["repack_at_close"] = bool(ws.repack)
         ws.close()
         out["handle"] = iotrace.handle_state(ws)
         out["nfiles_after_close"] = iotrace.n_open_files()
@@ -1055,6 +1205,30 @@ def case_term(case, obs):
         m2 = "None" if case["mode2"] is None else f"(Some {K.MODES[case['mode2']]})"
         return ("agree_run Closed %s false 1 [OpenM %s] [None] [%s] []"
                 % (K.MODES[case["mode1"]], m2, K.c_handle(obs["handle_reopened"])))
+    if case["kind"] == "save_fault":
+        if case["via"] != "save_as":
+            return None
+        ops, outs, hs, sites, log = [], [], [], [], []
+        for rec in obs["ops"]:
+            ops.append(f"(Calls {K.c_calls_rp(rec)})")
+            outs.append("None")
+            hs.append(K.c_handle(rec["handle_after"]))
+            sites += rec["calls"]
+            log += rec["entries"]
+        seqs = [("SaveAsFail", "(Some EFail)" if obs["fail_exc"] is not None else "None", obs["handle_after_fail"], obs["fail"])]
+        seqs.append(("(OpenM None)", K.c_err(obs["reopen"]["exc"], obs["reopen"]["calls"]) if obs["reopen"]["exc"] is None else "(Some EFail)",
+                     obs["handle_reopened"], obs["reopen"]))
+        if "good" in obs:
+            seqs.append(("SaveAs", "None" if obs["good"]["exc"] is None else "(Some EFail)", obs["handle_after_good"], obs["good"]))
+        for t, e, h, rec in seqs:
+            ops.append(t)
+            outs.append(e)
+            hs.append(K.c_handle(h))
+            sites += rec["calls"]
+            log += rec["entries"]
+        return ("agree_run %s %s false %s %s %s %s %s && sites_ok IOT %s"
+                % (K.c_handle(obs["handle0"]), K.MODES[obs["ctor_mode"]], cnat(obs.get("ncat", 0)), clist(ops), clist(outs), clist(hs),
+                   K.c_log(log), K.c_sites(sites)))
     if case["kind"] == "mem_dh":
         ops, outs, hs, sites, log = [], [], [], [], []
         for rec in obs["ops"]:
@@ -1182,6 +1356,31 @@ def oracle(case, obs):
         if obs["nfiles_end"] != 0 or obs["nfiles_mid"] != 0:
             fails.append({"key": "hdf5-handle-leak", "what": "open HDF5 files between / after the sessions"})
         return fails
+    if case["kind"] == "save_fault":
+        tag = f"{case['via']}:{case['src']}:{case['fault']}"
+        if obs.get("fail_exc") is None:
+            fails.append({"key": "unwritable-target-accepted:" + case["fault"], "what": f"{tag}: no error for a target that cannot be written"})
+        if obs.get("nfiles_after_fail", 0) != 0:
+            fails.append({"key": "hdf5-handle-leak:failed-" + case["via"], "what": f"{tag}: {obs['nfiles_after_fail']} HDF5 file(s) open after the failure"})
+        if case["via"] != "save_as":
+            return fails
+        if obs["handle_after_fail"] not in ("closed",) and obs["fail_exc"] is not None:
+            pass      # staying open would be acceptable too; what matters is that the content is reachable
+        if obs["reopen"]["exc"] is not None:
+            fails.append({"key": "not-reopenable-after-failed-save_as",
+                          "what": f"{tag}: after the failed save_as ({obs['fail_exc']}) ws.open() raises {obs['reopen']['exc']}: {obs['reopen']['msg']}"})
+            return fails
+        for label in ("view_reopened", "view_good"):
+            got = obs.get(label)
+            if isinstance(got, str):
+                fails.append({"key": "content-unreadable-after-failed-save_as", "what": f"{tag}: [{label}] {got}"})
+            elif got is not None and got != obs["expected"]:
+                fails.append({"key": "content-lost-after-failed-save_as", "what": f"{tag}: [{label}] {str(got)[:200]} expected {str(obs['expected'])[:200]}"})
+        if obs.get("good", {}).get("exc") is not None:
+            fails.append({"key": "save_as-fails-after-failed-save_as", "what": f"{tag}: a valid save_as afterwards raised {obs['good']['exc']}: {obs['good']['msg']}"})
+        if obs["nfiles_end"] != obs["nfiles_before"]:
+            fails.append({"key": "hdf5-handle-leak-end", "what": "open HDF5 files at the end of the case"})
+        return fails
     if case["kind"] == "mem_dh":
         end = case["end"]
         if end in ("close", "save_as") and obs.get("exc") is not None:
@@ -1246,7 +1445,7 @@ def nontrivial(case, obs):
         return obs["handle_before"] == "closed" or case["req"] not in obs["handle_before"]
     if case["kind"] == "reopen_content":
         return obs.get("view_file") is not None
-    if case["kind"] == "mem_dh":
+    if case["kind"] in ("mem_dh", "save_fault"):
         return True
     return bool(obs["closed"]["calls"])
 
@@ -1280,6 +1479,10 @@ def histogram(cases, obs):
             k = f"{c['via']}:hold={c['hold']}:{c['mode1']}->{c['mode2']}"
             h.setdefault("reopen_content", {})
             h["reopen_content"][k] = h["reopen_content"].get(k, 0) + 1
+        elif c["kind"] == "save_fault":
+            k = f"{c['via']}:{c['src']}:{c['fault']}->{o.get('fail_exc')}"
+            h.setdefault("failed_save_as", {})
+            h["failed_save_as"][k] = h["failed_save_as"].get(k, 0) + 1
         elif c["kind"] == "mem_dh":
             h.setdefault("in_memory_drillholes", {})
             h["in_memory_drillholes"][c["end"]] = h["in_memory_drillholes"].get(c["end"], 0) + 1
